@@ -430,7 +430,7 @@ Qed.
 
 Theorem step_LI s o : LI s -> LI (fst (M.step s o)).
 Proof.
-  intros L. destruct o as [n|t ok|u|u|n|n|u|u ok]; cbn [M.step fst].
+  intros L. destruct o as [n|t ok|u|u|n|n|u|u r|u]; cbn [M.step fst].
   - apply start_LI. exact L.
   - apply tstep_LI. exact L.
   - apply release_LI. exact L.
@@ -445,8 +445,11 @@ Proof.
     + rewrite bc_do_locks. reflexivity.
     + left. rewrite bc_do_lc. reflexivity.
     + right. exists (Expire n). split; [rewrite bc_do_bc; reflexivity|discriminate].
-  - destruct (nth_error (M.uh s) u) as [[h r]|]; [|exact L]. destruct (M.layer_flags s h). exact L.
-  - destruct (nth_error (M.uh s) u) as [[h r]|]; [|exact L]. destruct (M.layer_flags s h). exact L.
+  - destruct (nth_error (M.uh s) u) as [[h r0]|]; [|exact L]. destruct (M.layer_flags s h). exact L.
+  - destruct (nth_error (M.uh s) u) as [[h r0]|]; [|exact L]. destruct (M.layer_flags s h).
+    destruct (_ && _); [|exact L]. destruct r, (M.blob_of s h); cbn [fst]; try exact L;
+      (apply (LI_move s _ L); [reflexivity|reflexivity|left; reflexivity|left; apply rpath_refl]).
+  - destruct (nth_error (M.uh s) u) as [[h r0]|]; [|exact L]. destruct (M.blob_of s h); exact L.
 Qed.
 
 Theorem exec_LI os : forall s, LI s -> LI (M.exec s os).
@@ -470,7 +473,7 @@ Proof.
 Qed.
 Lemma cstep_LI s o : LI s -> LI (fst (M.cstep s o)).
 Proof.
-  intros L. destruct o as [n|t ok|u|u|n|n|u|u ok]; cbn [M.cstep].
+  intros L. destruct o as [n|t ok|u|u|n|n|u|u r|u]; cbn [M.cstep].
   - destruct (M.run_on 16 _ _ _) as [s2 e] eqn:E2. destruct (M.wake s2 _ e) as [s3 e'] eqn:E3. cbn [fst].
     replace s3 with (fst (M.wake s2 (length (M.thrs s)) e)) by (rewrite E3; reflexivity). apply wake_LI.
     replace s2 with (fst (M.run_on 16 (fst (M.step s (M.RStart n))) (length (M.thrs s)) M.ENone)) by (rewrite E2; reflexivity).
@@ -485,7 +488,8 @@ Proof.
   - apply (step_LI s (M.ExpireL n) L).
   - apply (step_LI s (M.ExpireB n) L).
   - pose proof (step_LI s (M.Use u) L) as H. destruct (M.step s (M.Use u)). exact H.
-  - pose proof (step_LI s (M.Refresh u ok) L) as H. destruct (M.step s (M.Refresh u ok)). exact H.
+  - pose proof (step_LI s (M.Refresh u r) L) as H. destruct (M.step s (M.Refresh u r)). exact H.
+  - pose proof (step_LI s (M.Probe u) L) as H. destruct (M.step s (M.Probe u)). exact H.
 Qed.
 Lemma cexec_LI os : forall s, LI s -> LI (cexec s os).
 Proof. unfold cexec. induction os as [|o os IH]; simpl; intros s L; [exact L|]. apply IH. apply cstep_LI. exact L. Qed.
@@ -527,7 +531,7 @@ Lemma step_other s o t th : nth_error (M.thrs s) t = Some th -> not_step_of t o 
   nth_error (M.thrs (fst (M.step s o))) t = Some th.
 Proof.
   intros Ht Hn. assert (Hlt : t < length (M.thrs s)) by (eapply nth_some_lt; eauto).
-  destruct o as [n|t' ok|u|u|n|n|u|u ok]; cbn [M.step fst].
+  destruct o as [n|t' ok|u|u|n|n|u|u r|u]; cbn [M.step fst].
   - cbn. rewrite nth_error_app1 by exact Hlt. exact Ht.
   - assert (Hne : t' <> t) by (intros ->; apply (Hn ok); reflexivity).
     destruct (nth_error (M.thrs s) t') as [th'|] eqn:Ht'; [|rewrite (tstep_none _ _ _ Ht'); exact Ht].
@@ -537,13 +541,15 @@ Proof.
   - unfold M.release. destruct (nth_error (M.uh s) u) as [[h r]|]; [|exact Ht]. rewrite lc_do_thrs. exact Ht.
   - rewrite lc_do_thrs. exact Ht.
   - rewrite bc_do_thrs. exact Ht.
-  - destruct (nth_error (M.uh s) u) as [[h r]|]; [|exact Ht]. destruct (M.layer_flags s h). exact Ht.
-  - destruct (nth_error (M.uh s) u) as [[h r]|]; [|exact Ht]. destruct (M.layer_flags s h). exact Ht.
+  - destruct (nth_error (M.uh s) u) as [[h r0]|]; [|exact Ht]. destruct (M.layer_flags s h). exact Ht.
+  - destruct (nth_error (M.uh s) u) as [[h r0]|]; [|exact Ht]. destruct (M.layer_flags s h).
+    destruct (_ && _); [|exact Ht]. destruct r, (M.blob_of s h); exact Ht.
+  - destruct (nth_error (M.uh s) u) as [[h r0]|]; [|exact Ht]. destruct (M.blob_of s h); exact Ht.
 Qed.
 
 Lemma step_hval s o h v : M.hval (M.lc s) h = Some v -> M.hval (M.lc (fst (M.step s o))) h = Some v.
 Proof.
-  intros H. destruct o as [n|t' ok|u|u|n|n|u|u ok]; cbn [M.step fst].
+  intros H. destruct o as [n|t' ok|u|u|n|n|u|u r|u]; cbn [M.step fst].
   - exact H.
   - destruct (nth_error (M.thrs s) t') as [th'|] eqn:Ht'; [|rewrite (tstep_none _ _ _ Ht'); exact H].
     destruct (tstep_sum s t' ok th' Ht') as [E|(p' & lo & bo & _ & Hl & _)]; [rewrite E; exact H|].
@@ -552,8 +558,10 @@ Proof.
   - unfold M.release. destruct (nth_error (M.uh s) u) as [[h0 r]|]; [|exact H]. rewrite lc_do_lc. apply hval_step. exact H.
   - rewrite lc_do_lc. apply hval_step. exact H.
   - rewrite bc_do_lc. exact H.
-  - destruct (nth_error (M.uh s) u) as [[h0 r]|]; [|exact H]. destruct (M.layer_flags s h0). exact H.
-  - destruct (nth_error (M.uh s) u) as [[h0 r]|]; [|exact H]. destruct (M.layer_flags s h0). exact H.
+  - destruct (nth_error (M.uh s) u) as [[h0 r0]|]; [|exact H]. destruct (M.layer_flags s h0). exact H.
+  - destruct (nth_error (M.uh s) u) as [[h0 r0]|]; [|exact H]. destruct (M.layer_flags s h0).
+    destruct (_ && _); [|exact H]. destruct r, (M.blob_of s h0); exact H.
+  - destruct (nth_error (M.uh s) u) as [[h0 r0]|]; [|exact H]. destruct (M.blob_of s h0); exact H.
 Qed.
 
 (* ---------- single instance ---------- *)
@@ -630,4 +638,86 @@ Proof.
           intros t' th' ok Ht' Hp En; exact (blocked_while_held s t' th' t th ok L Ht' Hp Ht Ha (eq_sym En))]|].
   split; [intros t th Ht; split; [exact (l_lmiss s L t th Ht)|exact (l_bmiss s L t th Ht)]|].
   intros t th ok v fr Ht Hr. exact (ret_spec s t ok th v fr I L Ht Hr).
+Qed.
+
+(* ---------- connectivity refreshes: the blob's fetcher changes only when a Refresh is accepted ---------- *)
+Lemma lc_do_bad s o : M.bad (fst (M.lc_do s o)) = M.bad s.
+Proof. destruct (lc_do_frame s o) as ((_ & _ & _ & _ & A) & _). exact A. Qed.
+Lemma bc_do_bad s o : M.bad (fst (M.bc_do s o)) = M.bad s.
+Proof. destruct (bc_do_frame s o) as ((_ & _ & _ & _ & A) & _). exact A. Qed.
+Lemma setpc_bad s t n p : M.bad (M.setpc s t n p) = M.bad s. Proof. reflexivity. Qed.
+Lemma finish_bad s t n : M.bad (M.finish s t n) = M.bad s. Proof. reflexivity. Qed.
+Lemma rmdir_bad s d : M.bad (M.rmdir s d) = M.bad s. Proof. reflexivity. Qed.
+Lemma set_uh_bad s x : M.bad (M.set_uh s x) = M.bad s. Proof. reflexivity. Qed.
+Lemma set_lobjs_bad s x : M.bad (M.set_lobjs s x) = M.bad s. Proof. reflexivity. Qed.
+Lemma set_bobjs_bad s x : M.bad (M.set_bobjs s x) = M.bad s. Proof. reflexivity. Qed.
+Lemma set_locks_bad s x : M.bad (M.set_locks s x) = M.bad s. Proof. reflexivity. Qed.
+Lemma mkdir_bad s k : M.bad (fst (M.mkdir s k)) = M.bad s. Proof. reflexivity. Qed.
+Global Hint Rewrite lc_do_bad bc_do_bad setpc_bad finish_bad rmdir_bad set_uh_bad set_lobjs_bad set_bobjs_bad set_locks_bad mkdir_bad : proj.
+
+Lemma tstep_bad s t ok : M.bad (fst (M.tstep s t ok)) = M.bad s.
+Proof.
+  unfold M.tstep. destruct (nth_error (M.thrs s) t) as [th|]; [|reflexivity].
+  destruct (M.t_pc th) as [|h|h| | |bh|bh| | |d|bh|bh d|]; cbn [fst snd]; cbv zeta.
+  - destruct (M.mem _ _); [reflexivity|]. destruct (snd (M.lc_do _ _)); cbn [fst]; autorewrite with proj; reflexivity.
+  - destruct (M.layer_flags s h). destruct (_ && _); [|reflexivity]. destruct (M.hval _ _); cbn [fst]; autorewrite with proj; reflexivity.
+  - autorewrite with proj. reflexivity.
+  - autorewrite with proj. reflexivity.
+  - destruct (snd (M.bc_do _ _)); cbn [fst]; autorewrite with proj; reflexivity.
+  - destruct (_ && _); reflexivity.
+  - autorewrite with proj. reflexivity.
+  - autorewrite with proj. reflexivity.
+  - reflexivity.
+  - destruct ok; [destruct (snd (M.bc_do _ _)) as [[? []]|]|]; cbn [fst]; autorewrite with proj; reflexivity.
+  - reflexivity.
+  - destruct ok; [destruct (snd (M.lc_do _ _)) as [[? []]|]|]; cbn [fst]; autorewrite with proj; reflexivity.
+  - reflexivity.
+Qed.
+
+Definition accepts_other_content (o : M.op) : Prop := exists u, o = M.Refresh u M.RfContent.
+
+(* only an accepted Refresh touches the record of replaced fetchers; a refused one (resolution error, other size)
+   changes nothing at all *)
+Lemma refused_refresh_nop s u r : r = M.RfErr \/ r = M.RfSize -> fst (M.step s (M.Refresh u r)) = s.
+Proof.
+  intros Hr. cbn [M.step]. destruct (nth_error (M.uh s) u) as [[h r0]|]; [|reflexivity].
+  destruct (M.layer_flags s h). destruct (_ && _); [|reflexivity].
+  destruct Hr as [-> | ->]; destruct (M.blob_of s h); reflexivity.
+Qed.
+
+Lemma rm_nil d : M.rm d [] = []. Proof. reflexivity. Qed.
+
+Lemma step_bad_nil s o : ~ accepts_other_content o -> M.bad s = [] -> M.bad (fst (M.step s o)) = [].
+Proof.
+  intros Hn Hb. destruct o as [n|t ok|u|u|n|n|u|u r|u]; cbn [M.step fst].
+  - exact Hb.
+  - rewrite tstep_bad. exact Hb.
+  - unfold M.release. destruct (nth_error (M.uh s) u) as [[h r0]|]; [|exact Hb]. autorewrite with proj. exact Hb.
+  - unfold M.release. destruct (nth_error (M.uh s) u) as [[h r0]|]; [|exact Hb]. autorewrite with proj. exact Hb.
+  - autorewrite with proj. exact Hb.
+  - autorewrite with proj. exact Hb.
+  - destruct (nth_error (M.uh s) u) as [[h r0]|]; [|exact Hb]. destruct (M.layer_flags s h). exact Hb.
+  - destruct (nth_error (M.uh s) u) as [[h r0]|]; [|exact Hb]. destruct (M.layer_flags s h).
+    destruct (_ && _); [|exact Hb]. destruct r, (M.blob_of s h); cbn [fst]; try exact Hb.
+    + cbn. rewrite Hb. reflexivity.
+    + exfalso. apply Hn. exists u. reflexivity.
+  - destruct (nth_error (M.uh s) u) as [[h r0]|]; [|exact Hb]. destruct (M.blob_of s h); exact Hb.
+Qed.
+
+Lemma exec_bad_nil os : forall s, Forall (fun o => ~ accepts_other_content o) os -> M.bad s = [] -> M.bad (M.exec s os) = [].
+Proof.
+  unfold M.exec. induction os as [|o os IH]; simpl; intros s Hall Hb; [exact Hb|].
+  inversion Hall; subst. apply IH; [assumption|apply step_bad_nil; assumption].
+Qed.
+
+(* reads that have to go to the registry keep working on a held layer, whatever Refresh calls were made and refused,
+   as long as no registry was accepted that serves other bytes under the blob's size *)
+Lemma held_probe os u h : Forall (fun o => ~ accepts_other_content o) os ->
+  let s := M.exec M.init os in
+  nth_error (M.uh s) u = Some (h, false) -> M.step s (M.Probe u) = (s, M.EProbe true).
+Proof.
+  intros Hall s Hu. pose proof (reach_inv os) as I. fold s in I.
+  destruct (held_usable s u h I Hu) as (Hf & v & o & b & ob & Hv & Ho & _ & _ & Hb & _).
+  cbn [M.step]. rewrite Hu. unfold M.blob_of, M.hval. rewrite Hv, Ho, Hb. rewrite Hf. cbn [snd negb andb].
+  assert (Hbad : M.bad s = []) by (apply exec_bad_nil; [exact Hall|reflexivity]). rewrite Hbad. reflexivity.
 Qed.
